@@ -22,12 +22,68 @@ import NeumannModel.Rel.VecModel
     qd <mx> select|count|columnar <cond>    qd <mx> limit <n> <off> <cond>                → <answer> | err too_deep
     deld <mx> <cond>     updd <mx> <k> (c<j> <val>)*k <cond>                              → ok <n> | err <e> | err too_deep
     vcmp <val> <val>                                                                      → eq=0|1 cmp=lt|eq|gt|none
-  values: n | i<int> | f<16 hex digits> | s<hex> | b0 | b1 | y<hex>      columns: _id | c<index>
+  values: n | i<int> | f<16 hex digits> | s<hex> | b0 | b1 | y<hex> | j<tree>~<hex of the rendered text>
+  JSON tree (prefix code, no blanks): z null | t | f | u<dec>; PosInt | m<dec>; NegInt (magnitude) |
+      d<16 hex digits> Float | s<hex>; string | a<tree>*] array | o(s<hex>;<tree>)*} object (keys ascending)
+  columns: _id | c<index>            column types of `new`: i f s b y j
   conditions (prefix): T | eq|ne|lt|le|gt|ge <col> <val> | and <c> <c> | or <c> <c>
 -/
 open Neumann Neumann.Proto Neumann.Rel
 
 def natOfBytes (bs : List Nat) : Nat := bs.foldl (fun acc b => acc * 256 + b) 0
+
+/-- characters up to (not including) the first `stop`, and the rest after it -/
+def splitAt1 (stop : Char) : List Char → Option (List Char × List Char)
+  | [] => none
+  | c :: rest => if c = stop then some ([], rest) else
+      (splitAt1 stop rest).map (fun p => (c :: p.1, p.2))
+
+def hexOrEmpty (cs : List Char) : Option (List Nat) := if cs.isEmpty then some [] else unhexChars cs
+
+mutual
+  def parseJson : Nat → List Char → Option (Json × List Char)
+    | 0, _ => none
+    | _ + 1, 'z' :: rest => some (.null, rest)
+    | _ + 1, 't' :: rest => some (.bool true, rest)
+    | _ + 1, 'f' :: rest => some (.bool false, rest)
+    | _ + 1, 'u' :: rest => match splitAt1 ';' rest with
+        | some (ds, r) => (String.ofList ds).toNat?.map (fun n => (.num (.pos n), r))
+        | none => none
+    | _ + 1, 'm' :: rest => match splitAt1 ';' rest with
+        | some (ds, r) => (String.ofList ds).toNat?.map (fun n => (.num (.neg (-(n : Int))), r))
+        | none => none
+    | _ + 1, 'd' :: rest =>
+        if rest.length < 16 then none
+        else (unhexChars (rest.take 16)).map (fun bs => (.num (.flt (natOfBytes bs)), rest.drop 16))
+    | _ + 1, 's' :: rest => match splitAt1 ';' rest with
+        | some (hs, r) => (hexOrEmpty hs).map (fun bs => (.str bs, r))
+        | none => none
+    | fuel + 1, 'a' :: rest => parseItems fuel rest
+    | fuel + 1, 'o' :: rest => parseFields fuel rest
+    | _, _ => none
+  def parseItems : Nat → List Char → Option (Json × List Char)
+    | 0, _ => none
+    | _ + 1, ']' :: rest => some (.anil, rest)
+    | fuel + 1, cs => match parseJson fuel cs with
+        | some (h, r1) => (match parseItems fuel r1 with
+            | some (t, r2) => some (.acons h t, r2) | none => none)
+        | none => none
+  def parseFields : Nat → List Char → Option (Json × List Char)
+    | 0, _ => none
+    | _ + 1, '}' :: rest => some (.onil, rest)
+    | fuel + 1, 's' :: cs => match splitAt1 ';' cs with
+        | some (hs, r0) => (match hexOrEmpty hs, parseJson fuel r0 with
+            | some k, some (v, r1) => (match parseFields fuel r1 with
+                | some (t, r2) => some (.ocons k v t, r2) | none => none)
+            | _, _ => none)
+        | none => none
+    | _, _ => none
+end
+
+def parseJsonVal (cs : List Char) : Option Value :=
+  match parseJson (cs.length + 1) cs with
+  | some (j, '~' :: hs) => (unhexChars hs).map (fun tx => .json j tx)
+  | _ => none
 
 def parseVal (s : String) : Option Value :=
   match s.toList with
@@ -38,15 +94,47 @@ def parseVal (s : String) : Option Value :=
   | 'y' :: rest => (unhex (String.ofList rest)).map .bytes
   | ['b', '0'] => some (.bool false)
   | ['b', '1'] => some (.bool true)
+  | 'j' :: rest => parseJsonVal rest
   | _ => none
 
 def bytesOfNat8 (n : Nat) : List Nat :=
   (List.range 8).reverse.map (fun i => n / (256 ^ i) % 256)
 
+def hex16 (b : Nat) : String :=
+  String.ofList ((bytesOfNat8 b).flatMap fun x => [hexNibble (x / 16 % 16), hexNibble (x % 16)])
+
+def hexRaw (bs : List Nat) : String :=
+  String.ofList (bs.flatMap fun b => [hexNibble (b / 16 % 16), hexNibble (b % 16)])
+
+def showJson : Json → String
+  | .null => "z"
+  | .bool b => if b then "t" else "f"
+  | .num (.pos n) => "u" ++ toString n ++ ";"
+  | .num (.neg i) => "m" ++ toString i.natAbs ++ ";"
+  | .num (.flt b) => "d" ++ hex16 b
+  | .str s => "s" ++ hexRaw s ++ ";"
+  | _ => "?"          -- cons cells are printed by `showJsonTop`
+
+/-- arrays / objects open with `a` / `o`; the cons cells print their items and the closing bracket -/
+def showJsonTop : Json → String
+  | .acons h t => "a" ++ showJsonTop h ++ showJsonRest t
+  | .anil => "a]"
+  | .ocons k v r => "os" ++ hexRaw k ++ ";" ++ showJsonTop v ++ showJsonRestO r
+  | .onil => "o}"
+  | j => showJson j
+where
+  showJsonRest : Json → String
+    | .acons h t => showJsonTop h ++ showJsonRest t
+    | _ => "]"
+  showJsonRestO : Json → String
+    | .ocons k v r => "s" ++ hexRaw k ++ ";" ++ showJsonTop v ++ showJsonRestO r
+    | _ => "}"
+
 def showVal : Value → String
   | .null => "n"
   | .int i => "i" ++ toString i
-  | .float b => "f" ++ String.ofList ((bytesOfNat8 b).flatMap fun x => [hexNibble (x / 16 % 16), hexNibble (x % 16)])
+  | .float b => "f" ++ hex16 b
+  | .json j tx => "j" ++ showJsonTop j ++ "~" ++ hexRaw tx
   | .str s => "s" ++ hex s
   | .bool b => if b then "b1" else "b0"
   | .bytes s => "y" ++ hex s
@@ -89,7 +177,8 @@ def parseColDef (s : String) : Option (ColType × Bool) :=
   match s.toList with
   | [t, n] =>
     let ty := if t = 'i' then some ColType.int else if t = 'f' then some .float else if t = 's' then some .str
-              else if t = 'b' then some .bool else if t = 'y' then some .bytes else none
+              else if t = 'b' then some .bool else if t = 'y' then some .bytes
+              else if t = 'j' then some .json else none
     let nu := if n = '1' then some true else if n = '0' then some false else none
     match ty, nu with | some a, some b => some (a, b) | _, _ => none
   | _ => none
